@@ -24,12 +24,19 @@ design.d/TIE.md:
   * object identity `v is self.f` where `v = fam(self.f, ...)`: the family returns, beside its
     value, the flag "the result IS the argument object" (see design.d/TIE.md for the argument);
   * `+` on str / list / int, `-` on int, `|` on sets, f-strings, `str(int)`, `sep.join(xs)`;
-  * `if` blocks that only re-assign local variables -> `let v := if c then .. else v`.
+  * `if` blocks that only re-assign local variables -> `let v := if c then .. else v`;
+  * (desugar) an `ids: Iterator[int]` argument -> a counter threaded through (`next(ids)`, `count()`);
+    `match` statements with class patterns; `for` loops -> `fold_left` (pure body) or a local `fix`
+    in the state/option monad; iteration over a SET goes through the order oracle `ord`, keyed by the
+    value the counter had on entry to the enclosing function / loop body; set operations on
+    duplicate-free lists; comprehensions with tuple targets and several `for`s; `reduce`, `all`;
+    `x if v is None else f(v)`; functions that are not structurally recursive take explicit fuel.
 """
 
 from __future__ import annotations
 
 import ast
+from dataclasses import dataclass
 from pathlib import Path
 
 from .core import (COQ_RENAME, PRELUDE, Ctor, Family, FamilyEmitter, FuncSig, PyClass, Scope,
@@ -47,6 +54,10 @@ RESERVED = {
     "fold_left", "fold_right", "andb", "orb", "pair", "prod", "show_Z", "show_N", "py_join", "py_index",
     "py_getitem", "py_in", "set_union", "set_of_list", "obind", "omap", "pyset", "F0", "F1", "Fmake",
     "Feqb", "list_eqb", "option_eqb", "tt", "unit", "concat", "combine", "seq", "id",
+    # constructors of the standard library (a pattern variable of that name would be read as the constructor)
+    "left", "right", "inl", "inr", "inleft", "inright", "O", "S", "I", "Lt", "Gt", "Eq", "xH", "xI", "xO",
+    "Z0", "Zpos", "Zneg", "N0", "Npos", "String", "EmptyString", "Ascii", "conj", "exist", "ex_intro",
+    "eq_refl", "or_introl", "or_intror", "Nil", "D0", "D1", "D2", "D3", "D4", "D5", "D6", "D7", "D8", "D9",
 }
 
 
@@ -91,6 +102,29 @@ class XUniverse(Universe):
     def __init__(self):
         super().__init__()
         self.enums: dict[str, list[str]] = {}
+        self.ns: str | None = None  # namespace in which bare class names of annotations are looked up first
+        self.modules: dict[str, str] = {}  # module alias used in the source -> namespace prefix ("" = none)
+
+    def add_namespaced(self, ns: str, classes: dict[str, PyClass]):
+        """Register the classes of a module under the keys "<ns>.<Class>"."""
+        for name, k in classes.items():
+            self.classes[f"{ns}.{name}"] = PyClass(f"{ns}.{name}", [f"{ns}.{b}" for b in k.bases], k.fields,
+                                                   k.is_dataclass, k.methods)
+
+    def add_inductive(self, ind, root, members, prefix="", exclude_root=None):
+        super().add_inductive(ind, root, members, prefix, exclude_root)
+        for ct in self.inds[ind]:
+            bare = ct.pyclass.split(".")[-1]
+            ct.coq = COQ_RENAME.get(prefix + bare, prefix + bare)
+
+    def resolve_fields(self):
+        for ct in self.ctors.values():
+            k = self.classes[ct.pyclass]
+            self.ns = ct.pyclass.rsplit(".", 1)[0] if "." in ct.pyclass else None
+            try:
+                ct.fields = [(fn, self.coq_type(ann)) for fn, ann, _ in k.fields]
+            finally:
+                self.ns = None
 
     def add_enum(self, name: str, members: list[str]):
         self.enums[name] = members
@@ -102,7 +136,12 @@ class XUniverse(Universe):
             ann = ast.parse(ann.value, mode="eval").body
         if isinstance(ann, ast.Attribute) and isinstance(ann.value, ast.Name):
             # `ast.Expression`, `id.Tensor`: module-qualified class name
-            return self.coq_type(ast.copy_location(ast.Name(id=self.qualified(ann), ctx=ast.Load()), ann))
+            q = self.qualified(ann)
+            if q in self.root_of:
+                return self.root_of[q]
+            return self.coq_type(ast.copy_location(ast.Name(id=q, ctx=ast.Load()), ann))
+        if isinstance(ann, ast.Name) and self.ns and f"{self.ns}.{ann.id}" in self.root_of:
+            return self.root_of[f"{self.ns}.{ann.id}"]
         if isinstance(ann, ast.Subscript) and isinstance(ann.value, ast.Name):
             if ann.value.id in ("frozenset", "set"):
                 return f"(pyset {self.coq_type(ann.slice)})"
@@ -114,7 +153,8 @@ class XUniverse(Universe):
         return super().coq_type(ann)
 
     def qualified(self, a: ast.Attribute) -> str:
-        return a.attr
+        pre = self.modules.get(a.value.id, "") if isinstance(a.value, ast.Name) else ""
+        return f"{pre}.{a.attr}" if pre else a.attr
 
     def eqb_name(self, ty: str) -> str:
         ty = ty.strip()
@@ -147,14 +187,32 @@ def elt_of(ty: str) -> str | None:
 # --------------------------------------------------------------------------------------------
 
 
+@dataclass
+class Fx:
+    """Effects of a translated function, i.e. the shape of its Gallina type."""
+    opt: bool = False  # may raise: result is an option
+    state: str | None = None  # name of its `Iterator[int]` argument: takes and returns the counter
+    fuel: bool = False  # not structurally recursive: first argument is fuel, out of fuel = None
+
+
+NOFX = Fx()
+
+
 class XScope(Scope):
     def __init__(self, tr, self_ctor, self_type, ret, self_name="self", mode="pure", ident=None):
         super().__init__(tr, self_ctor, self_type, ret, self_name)
         self.mode = mode  # "pure" | "option"
         self.ident = ident  # name of the identity-tracked family being translated, or None
-        self.pending: list[tuple[str, str, str]] = []  # (kind, variable, text)
+        self.pending: list[tuple] = []  # (kind, variable, text, state variable)
         self.origins: dict[str, str] = {}  # variable bound from an identity-tracked call -> dump of its argument
         self.counter = [0]
+        self.state: str | None = None  # python name of the counter variable threaded through this body
+        self.ret_state = False  # the function returns the counter beside its value
+        self.fuel = False  # a variable `fuel` is in scope
+        self.entry_key: str | None = None  # variable holding the counter on entry of the enclosing function / loop body
+        self.entry_used = [False]
+        self.fallthrough = None  # text producer used when a statement list ends without return (loop bodies)
+        self.in_loop = False
 
     def fresh(self, base="t") -> str:
         self.counter[0] += 1
@@ -165,69 +223,145 @@ class XScope(Scope):
         return p
 
     def sub(self, ret, mode="pure"):
+        """A scope for a pure sub-block (an `if` that only re-assigns variables)."""
         s = XScope(self.tr, self.self_ctor, self.self_type, ret, self.self_name, mode, None)
         s.types = dict(self.types)
         s.counter = self.counter
         return s
 
+    def clone(self, **over):
+        s = XScope(self.tr, self.self_ctor, self.self_type, self.ret, self.self_name, self.mode, self.ident)
+        s.types = dict(self.types)
+        s.origins = dict(self.origins)
+        s.counter = self.counter
+        s.state, s.ret_state, s.fuel = self.state, self.ret_state, self.fuel
+        s.entry_key, s.entry_used = self.entry_key, self.entry_used
+        s.fallthrough, s.in_loop = self.fallthrough, self.in_loop
+        for k, v in over.items():
+            setattr(s, k, v)
+        return s
+
 
 def wrap(binds, inner: str) -> str:
-    for kind, var, text in reversed(binds):
+    for kind, var, text, st in reversed(binds):
         if kind == "opt":
             inner = f"match {text} with None => None | Some {var} =>\n    {inner} end"
         elif kind == "pair":
             inner = f"let '({var}, {var}_is_arg) := {text} in\n    {inner}"
+        elif kind == "st":
+            inner = f"let '({var}, {st}) := {text} in\n    {inner}"
+        elif kind == "optst":
+            inner = f"match {text} with None => None | Some ({var}, {st}) =>\n    {inner} end"
         else:
             raise AssertionError(kind)
     return inner
 
 
+def is_none(n) -> bool:
+    return isinstance(n, ast.Constant) and n.value is None
+
+
+def unknown(ty: str) -> bool:
+    return ty == "_" or ty.endswith("_)")
+
+
 class XTranslator(Translator):
     def __init__(self, U: XUniverse):
         super().__init__(U)
-        self.partial: set[str] = set()  # functions (python names) whose Gallina result is an option
+        self.fx: dict[str, Fx] = {}  # coq function name -> effects
         self.ident: set[str] = set()  # families returning (value, result-is-argument flag)
         self.rmethods: dict[tuple[str, str], str] = {}  # (inductive, method) -> coq function
         self.float_str: str | None = None  # name of the section variable rendering str(float)
+        self.summaries: dict[tuple[str, str], tuple[str, str]] = {}  # (type, idiom) -> (coq function, result type)
+        self.oracle: str | None = None  # name of the section variable giving the iteration order of sets
+        self.open_group: set[str] = set()  # functions being emitted in open-recursion style (called without fuel)
+
+    @property
+    def partial(self):
+        return {n for n, f in self.fx.items() if f.opt}
 
     # ------------------------------------------------------------------ helpers
     def guarded(self, node, sc: XScope, want=None):
         """Translate an expression that Python evaluates only conditionally: it must not
-        contain an exception-raising operation (that would be hoisted out of the condition)."""
+        contain an effect (that would be hoisted out of the condition)."""
         n = len(sc.pending)
         r = self.expr(node, sc, want)
         if len(sc.pending) != n:
-            raise Unsupported(node, "exception-raising operation under a short-circuit / conditional")
+            raise Unsupported(node, "exception-raising / counter-advancing operation under a short-circuit, conditional or lambda")
         return r
 
     def add_pending(self, sc: XScope, kind: str, base: str, text: str, node) -> str:
-        if kind == "opt" and sc.mode != "option":
+        if kind in ("opt", "optst") and sc.mode != "option":
             raise Unsupported(node, "exception-raising operation in a function translated as total")
+        if kind in ("st", "optst") and not sc.state:
+            raise Unsupported(node, "counter-advancing operation where no counter is in scope")
         v = sc.fresh(base)
-        sc.pending.append((kind, v, text))
+        sc.pending.append((kind, v, text, safe(sc.state) if sc.state else None))
         return v
 
-    def args_for(self, sig: FuncSig, args, sc, node, skip=0):
-        if len(args) != len(sig.params) - skip:
-            raise Unsupported(node, "arity")
-        out = []
-        for a, (pn, pt) in zip(args, sig.params[skip:]):
-            t, tt = self.expr(a, sc, want=pt)
-            out.append(self.coerce(t, tt, pt))
-        return out
-
     def coerce(self, t, frm, to):
-        if frm == to or to is None:
+        if frm == to or to is None or frm == "_":
             return t
         if frm in ("(list _)", "(pyset _)") and (to.startswith("(list ") or to.startswith("(pyset ")):
             return t
+        if frm == "(option _)" and to.startswith("(option "):
+            return t
         return super().coerce(t, frm, to)
+
+    def unify(self, a, b, node):
+        if unknown(a):
+            return b
+        if unknown(b):
+            return a
+        return super().unify(a, b, node)
+
+    def class_of_name(self, n):
+        if isinstance(n, ast.Attribute) and isinstance(n.value, ast.Name) and n.value.id in self.U.modules:
+            q = self.U.qualified(n)
+            return q if q in self.U.classes else None
+        return super().class_of_name(n)
+
+    def eqb_for(self, ty: str) -> str:
+        return self.U.eqb_name(ty)
+
+    def pattern(self, target, ty: str, sc: XScope, node) -> str:
+        """Binder pattern for a loop / comprehension target; enters the names into the scope."""
+        if isinstance(target, ast.Name):
+            sc.types[target.id] = ty
+            sc.origins.pop(target.id, None)
+            return safe(target.id)
+        if isinstance(target, ast.Tuple) and all(isinstance(x, ast.Name) for x in target.elts):
+            tys = split_product(ty)
+            if tys is None or len(tys) != len(target.elts):
+                raise Unsupported(node, "tuple target over non-tuples")
+            for x, xt in zip(target.elts, tys):
+                sc.types[x.id] = xt
+                sc.origins.pop(x.id, None)
+            return "'(" + ", ".join(safe(x.id) for x in target.elts) + ")"
+        raise Unsupported(node, "loop target")
+
+    def iterable(self, node, sc: XScope) -> tuple[str, str, bool]:
+        """(text of a list in iteration order, element type, is a set)."""
+        t, ty = self.expr(node, sc)
+        et = elt_of(ty)
+        if et is None or unknown(ty):
+            raise Unsupported(node, f"iteration over a value of type {ty}")
+        return t, et, ty.startswith("(pyset ")
+
+    def ordered(self, t: str, sc: XScope, node) -> str:
+        """A set is iterated in the order given by the oracle."""
+        if not self.oracle or not sc.entry_key:
+            raise Unsupported(node, "iteration over a set (its order is not determined) outside a function that threads the id counter")
+        sc.entry_used[0] = True
+        return f"({self.oracle} {sc.entry_key} {t})"
 
     # ------------------------------------------------------------------ expressions
     def expr(self, e, sc, want=None):
         U = self.U
         if isinstance(e, ast.Name):
             if e.id in sc.types:
+                if sc.types[e.id].startswith("(iterator "):
+                    raise Unsupported(e, "the iterator may only be passed on or advanced with next()")
                 return safe(e.id), sc.types[e.id]
             raise Unsupported(e, "unbound name")
         if isinstance(e, ast.Attribute):
@@ -238,13 +372,26 @@ class XTranslator(Translator):
                 return f"{e.value.id}_{e.attr}", e.value.id
             if isinstance(e.value, ast.Name) and e.value.id == sc.self_name and sc.self_ctor:
                 return super().expr(e, sc, want)
-            # projection of a record value
             x, xt = self.expr(e.value, sc)
-            if U.is_record(xt):
+            if U.is_record(xt):  # projection of a record value
                 for fn, ty in U.inds[xt][0].fields:
                     if fn == e.attr:
                         return f"({xt}_{fn} {x})", ty
                 raise Unsupported(e, "no such field")
+            if xt in U.inds and xt not in U.enums:
+                # field of a value whose class is one of several: AttributeError on the others
+                have = [ct for ct in U.inds[xt] if any(fn == e.attr for fn, _ in ct.fields)]
+                tys = {ty for ct in have for fn, ty in ct.fields if fn == e.attr}
+                if not have or len(tys) != 1:
+                    raise Unsupported(e, "no such field")
+                arms = []
+                for ct in have:
+                    pat = " ".join("x_" if fn == e.attr else "_" for fn, _ in ct.fields)
+                    arms.append(f"{ct.coq} {pat} => Some x_")
+                if len(have) < len(U.inds[xt]) + sum(1 for (_, sup) in U.embed if sup == xt):
+                    arms.append("_ => None")
+                v = self.add_pending(sc, "opt", e.attr, f"(match {x} with " + " | ".join(arms) + " end)", e)
+                return v, tys.pop()
             raise Unsupported(e, "attribute of a value whose class is not known statically")
         if isinstance(e, ast.BoolOp):
             first = self.expr(e.values[0], sc)
@@ -254,12 +401,7 @@ class XTranslator(Translator):
             op = " && " if isinstance(e.op, ast.And) else " || "
             return "(" + op.join(t for t, _ in parts) + ")", "bool"
         if isinstance(e, ast.IfExp):
-            c, cty = self.expr(e.test, sc)
-            self.need(cty, "bool", e)
-            a, at = self.guarded(e.body, sc, want)
-            b, bt = self.guarded(e.orelse, sc, want or at)
-            ty = self.unify(at, bt, e)
-            return f"(if {c} then {self.coerce(a, at, ty)} else {self.coerce(b, bt, ty)})", ty
+            return self.ifexp(e, sc, want)
         if isinstance(e, ast.Compare) and len(e.ops) == 1 and isinstance(e.ops[0], (ast.Is, ast.IsNot)):
             return self.identity_test(e, sc)
         if isinstance(e, ast.Compare) and len(e.ops) == 1 and isinstance(e.ops[0], (ast.In, ast.NotIn)):
@@ -280,10 +422,10 @@ class XTranslator(Translator):
             return f"({l} {op} {r})%Z", "bool"
         if isinstance(e, ast.BinOp):
             l, lt = self.expr(e.left, sc, want)
-            r, rt = self.expr(e.right, sc, want=lt if not lt.endswith("_)") else want)
-            if lt.endswith("_)") and not rt.endswith("_)"):
+            r, rt = self.expr(e.right, sc, want=lt if not unknown(lt) else want)
+            if unknown(lt) and not unknown(rt):
                 lt = rt
-            if rt.endswith("_)"):
+            if unknown(rt):
                 rt = lt
             if isinstance(e.op, ast.Add):
                 if lt == rt == "string":
@@ -298,6 +440,10 @@ class XTranslator(Translator):
                 return f"({l} * {r})%Z", "Z"
             if isinstance(e.op, ast.BitOr) and lt == rt and lt.startswith("(pyset "):
                 return f"(set_union {U.eqb_name(elt_of(lt))} {l} {r})", lt
+            if isinstance(e.op, ast.Sub) and lt.startswith("(pyset ") and elt_of(rt) == elt_of(lt):
+                return f"(set_diff {U.eqb_name(elt_of(lt))} {l} {r})", lt
+            if isinstance(e.op, ast.BitAnd) and lt.startswith("(pyset ") and elt_of(rt) == elt_of(lt):
+                return f"(set_inter {U.eqb_name(elt_of(lt))} {l} {r})", lt
             raise Unsupported(e, f"binary operator on {lt}, {rt}")
         if isinstance(e, ast.JoinedStr):
             parts = []
@@ -335,41 +481,100 @@ class XTranslator(Translator):
             return "[" + "; ".join(self.coerce(t, tt, ty) for t, tt in parts) + "]", f"(list {ty})"
         if isinstance(e, ast.ListComp):
             return self.comprehension(e, sc)
+        if isinstance(e, ast.SetComp):
+            # {x for x in s if c}: a subset of s, whatever the iteration order
+            if len(e.generators) != 1 or not isinstance(e.generators[0].target, ast.Name) \
+                    or not isinstance(e.elt, ast.Name) or e.elt.id != e.generators[0].target.id:
+                raise Unsupported(e, "set comprehension other than {x for x in s if c}")
+            g = e.generators[0]
+            t, ty = self.expr(g.iter, sc)
+            if not ty.startswith("(pyset "):
+                raise Unsupported(e, "set comprehension over a non-set")
+            inner = sc.clone()
+            inner.pending = []
+            inner.types[g.target.id] = elt_of(ty)
+            for cond in g.ifs:
+                c, cty = self.guarded(cond, inner)
+                self.need(cty, "bool", e)
+                t = f"(filter (fun {safe(g.target.id)} => {c}) {t})"
+            return t, ty
         return super().expr(e, sc, want)
 
-    def comprehension(self, e: ast.ListComp, sc: XScope):
-        if len(e.generators) != 1:
-            raise Unsupported(e, "comprehension")
-        g = e.generators[0]
-        if not isinstance(g.target, ast.Name) or g.is_async:
-            raise Unsupported(e, "comprehension target")
-        it, ity = self.expr(g.iter, sc)
-        if not ity.startswith("(list "):
-            raise Unsupported(e, "comprehension over a non-list (iteration order of a set needs an oracle)")
-        v = g.target.id
-        old = sc.types.get(v)
-        sc.types[v] = elt_of(ity)
-        try:
-            src = it
+    def ifexp(self, e: ast.IfExp, sc: XScope, want):
+        # `a if v is None else f(v)`: in the other branch v is the object itself
+        t = e.test
+        if isinstance(t, ast.Compare) and len(t.ops) == 1 and isinstance(t.ops[0], (ast.Is, ast.IsNot)) \
+                and isinstance(t.left, ast.Name) and is_none(t.comparators[0]) \
+                and sc.types.get(t.left.id, "").startswith("(option "):
+            v = t.left.id
+            vt = sc.types[v]
+            inner = vt[len("(option "):-1]
+            none_branch, some_branch = (e.body, e.orelse) if isinstance(t.ops[0], ast.Is) else (e.orelse, e.body)
+            a, at = self.guarded(none_branch, sc, want)
+            sc.types[v] = inner
+            try:
+                b, bt = self.guarded(some_branch, sc, want or at)
+            finally:
+                sc.types[v] = vt
+            ty = self.unify(at, bt, e)
+            return (f"(match {safe(v)} with None => {self.coerce(a, at, ty)} | Some {safe(v)} => "
+                    f"{self.coerce(b, bt, ty)} end)"), ty
+        c, cty = self.expr(e.test, sc)
+        self.need(cty, "bool", e)
+        a, at = self.guarded(e.body, sc, want)
+        b, bt = self.guarded(e.orelse, sc, want or at)
+        ty = self.unify(at, bt, e)
+        return f"(if {c} then {self.coerce(a, at, ty)} else {self.coerce(b, bt, ty)})", ty
+
+    def comprehension(self, e, sc: XScope):
+        """[elt for t1 in it1 (if c)* for t2 in it2 ...] -> map / flat_map / filter; when the element
+        expression has effects (single `for`): a local fix in the state / option monad."""
+        gens = e.generators
+        if any(g.is_async for g in gens):
+            raise Unsupported(e, "async comprehension")
+        inner = sc.clone()
+        inner.pending = []
+        layers = []  # (pattern, source text)
+        for gi, g in enumerate(gens):
+            n0 = len(inner.pending)
+            src, et, is_set = self.iterable(g.iter, inner)
+            if gi == 0:
+                # the first iterable is evaluated once, in the enclosing scope: its effects are ours
+                sc.pending.extend(inner.pending[n0:])
+                del inner.pending[n0:]
+            elif len(inner.pending) != n0:
+                raise Unsupported(e, "effect in the iterable of an inner `for` of a comprehension")
+            if is_set:
+                src = self.ordered(src, sc, e)
+            pat = self.pattern(g.target, et, inner, e)
             for cond in g.ifs:
-                c, cty = self.guarded(cond, sc)
+                c, cty = self.guarded(cond, inner)
                 self.need(cty, "bool", e)
-                src = f"(filter (fun {safe(v)} => {c}) {src})"
-            n = len(sc.pending)
-            body, bty = self.expr(e.elt, sc)
-            inner = sc.pending[n:]
-            del sc.pending[n:]
-        finally:
-            if old is None:
-                sc.types.pop(v, None)
+                src = f"(filter (fun {pat} => {c}) {src})"
+            layers.append((pat, src))
+            ety = et
+        body, bty = self.expr(e.elt, inner)
+        eff = inner.take()
+        if eff:
+            if len(layers) != 1:
+                raise Unsupported(e, "effects in a comprehension with several `for`s")
+            pat, src = layers[0]
+            st = safe(sc.state) if sc.state and any(k[0] in ("st", "optst") for k in eff) else None
+            opt = sc.mode == "option"
+            if not opt:
+                raise Unsupported(e, "effects in a comprehension of a function translated as total")
+            if st:
+                fx = f"omap_st (fun (x_ : {ety}) ({st} : Z) => let {pat} := x_ in {wrap(eff, f'Some ({body}, {st})')}) {src} {st}"
+                r = self.add_pending(sc, "optst", "items", fx, e)
             else:
-                sc.types[v] = old
-        if inner:
-            # the element expression may raise: evaluate left to right in the option monad
-            f = f"(fun {safe(v)} => {wrap(inner, 'Some (' + body + ')')})"
-            r = self.add_pending(sc, "opt", "items", f"omap {f} {src}", e)
+                fx = f"omap (fun (x_ : {ety}) => let {pat} := x_ in {wrap(eff, f'Some ({body})')}) {src}"
+                r = self.add_pending(sc, "opt", "items", fx, e)
             return r, f"(list {bty})"
-        return f"(map (fun {safe(v)} => {body}) {src})", f"(list {bty})"
+        pat, src = layers[-1]
+        text = f"(map (fun {pat} => {body}) {src})"
+        for pat, src in reversed(layers[:-1]):
+            text = f"(flat_map (fun {pat} => {text}) {src})"
+        return text, f"(list {bty})"
 
     def to_str(self, node, sc) -> str:
         t, ty = self.expr(node, sc)
@@ -390,20 +595,94 @@ class XTranslator(Translator):
                 return (f"(negb {t})" if neg else t), "bool"
         # `x is None`
         for x, y in ((a, b), (b, a)):
-            if isinstance(y, ast.Constant) and y.value is None:
+            if is_none(y):
                 t, ty = self.expr(x, sc)
                 if ty.startswith("(option "):
                     r = f"match {t} with None => true | Some _ => false end"
                     return (f"(negb ({r}))" if neg else f"({r})"), "bool"
         raise Unsupported(e, "identity test other than `v is <argument of the call that produced v>`")
 
+    def call_known(self, name: str, arg_nodes, sc: XScope, node, first: list[str] | None = None):
+        """Call of a translated function: arguments left to right, then the effects of the call."""
+        sig = self.sigs[name]
+        fx = self.fx.get(name, NOFX)
+        first = first or []
+        params = sig.params[len(first):]
+        if len(arg_nodes) != len(params):
+            raise Unsupported(node, "arity")
+        texts = list(first)
+        for a, (pn, pt) in zip(arg_nodes, params):
+            if pt.startswith("(iterator "):
+                if not (isinstance(a, ast.Name) and a.id == sc.state):
+                    raise Unsupported(node, "an iterator argument must be the iterator of the calling function")
+                texts.append(safe(a.id))
+                continue
+            t, tt = self.expr(a, sc, want=pt)
+            texts.append(self.coerce(t, tt, pt))
+        head = sig.name
+        if fx.fuel and name not in self.open_group:
+            if not sc.fuel:
+                raise Unsupported(node, "call of a fuelled function where no fuel is in scope")
+            head += " fuel"
+        text = f"{head} {' '.join(texts)}".strip()
+        if name in self.ident:
+            v = self.add_pending(sc, "pair", "r", text, node)
+            sc.origins[v] = ast.dump(arg_nodes[0])
+            return v, sig.ret
+        if fx.opt or fx.state:
+            kind = "optst" if (fx.opt and fx.state) else ("opt" if fx.opt else "st")
+            v = self.add_pending(sc, kind, "r", text, node)
+            return v, sig.ret
+        return f"({text})", sig.ret
+
     def call(self, e: ast.Call, sc, want):
         U = self.U
         f = e.func
-        if isinstance(f, ast.Name) and f.id == "str" and len(e.args) == 1 and not e.keywords:
-            return self.to_str(e.args[0], sc), "string"
-        if isinstance(f, ast.Name) and f.id in ("frozenset", "set", "list") and not e.args and not e.keywords:
-            return "nil", want or ("(list _)" if f.id == "list" else "(pyset _)")
+        if isinstance(f, ast.Name) and f.id not in sc.types and not e.keywords:
+            if f.id == "str" and len(e.args) == 1:
+                return self.to_str(e.args[0], sc), "string"
+            if f.id in ("frozenset", "set", "list") and not e.args:
+                return "nil", want or ("(list _)" if f.id == "list" else "(pyset _)")
+            if f.id in ("set", "frozenset") and len(e.args) == 1:
+                x, xt = self.expr(e.args[0], sc)
+                if xt.startswith("(pyset "):
+                    return x, xt
+                if xt.startswith("(list ") and not unknown(xt):
+                    return f"(set_of_list {U.eqb_name(elt_of(xt))} {x})", f"(pyset {elt_of(xt)})"
+                raise Unsupported(e, "set() of a non-list")
+            if f.id == "next" and len(e.args) == 1:
+                a = e.args[0]
+                if not (isinstance(a, ast.Name) and a.id == sc.state):
+                    raise Unsupported(e, "next() of something other than the threaded iterator")
+                s = safe(a.id)
+                return self.add_pending(sc, "st", "next", f"({s}, ({s} + 1)%Z)", e), "Z"
+            if f.id in ("all", "any") and len(e.args) == 1 and isinstance(e.args[0], ast.GeneratorExp):
+                g = e.args[0]
+                if len(g.generators) != 1 or g.generators[0].is_async:
+                    raise Unsupported(e, "generator shape")
+                gen = g.generators[0]
+                # the result does not depend on the order: a set may be iterated without the oracle
+                src, et, _ = self.iterable(gen.iter, sc)
+                inner = sc.clone()
+                inner.pending = []
+                pat = self.pattern(gen.target, et, inner, e)
+                for cond in gen.ifs:
+                    c, cty = self.guarded(cond, inner)
+                    self.need(cty, "bool", e)
+                    src = f"(filter (fun {pat} => {c}) {src})"
+                b, bt = self.guarded(g.elt, inner)
+                self.need(bt, "bool", e)
+                return f"({'forallb' if f.id == 'all' else 'existsb'} (fun {pat} => {b}) {src})", "bool"
+            if f.id == "reduce" and len(e.args) == 2:
+                cn = self.class_of_name(e.args[0])
+                if cn is None or cn not in U.ctors or len(U.ctors[cn].fields) != 2 or any(
+                        ty != U.ctors[cn].ind for _, ty in U.ctors[cn].fields):
+                    raise Unsupported(e, "reduce() with a function other than a binary constructor")
+                xs, xt = self.expr(e.args[1], sc, want=f"(list {U.ctors[cn].ind})")
+                if xt != f"(list {U.ctors[cn].ind})":
+                    raise Unsupported(e, "reduce() over a list of another type")
+                # TypeError on an empty list
+                return self.add_pending(sc, "opt", "red", f"py_reduce {U.ctors[cn].coq} {xs}", e), U.ctors[cn].ind
         if isinstance(f, ast.Name) and f.id == "field" and not e.args and len(e.keywords) == 1 \
                 and e.keywords[0].arg == "default_factory" and isinstance(e.keywords[0].value, ast.Name) \
                 and e.keywords[0].value.id in ("list", "set", "frozenset"):
@@ -414,50 +693,66 @@ class XTranslator(Translator):
             xs, xt = self.expr(e.args[0], sc)
             self.need(xt, "(list string)", e)
             return f"(py_join {self.expr(f.value, sc)[0]} {xs})", "string"
+        # summarised idiom  E.index_participants().keys()
+        if isinstance(f, ast.Attribute) and f.attr == "keys" and not e.args and not e.keywords \
+                and isinstance(f.value, ast.Call) and isinstance(f.value.func, ast.Attribute) \
+                and not f.value.args and not f.value.keywords:
+            idiom = f"{f.value.func.attr}().keys()"
+            if any(k[1] == idiom for k in self.summaries):
+                x, xt = self.expr(f.value.func.value, sc)
+                if (xt, idiom) not in self.summaries:
+                    raise Unsupported(e, f"no summary of {idiom} on {xt}")
+                fn, rt = self.summaries[(xt, idiom)]
+                return f"({fn} {x})", rt
+        # set methods
+        if isinstance(f, ast.Attribute) and f.attr in ("intersection", "difference") and len(e.args) == 1 and not e.keywords:
+            x, xt = self.expr(f.value, sc)
+            if xt.startswith("(pyset ") and not unknown(xt):
+                y, yt = self.expr(e.args[0], sc, want=xt)
+                if elt_of(yt) != elt_of(xt) and not unknown(yt):
+                    raise Unsupported(e, "set operation between different element types")
+                op = "set_inter" if f.attr == "intersection" else "set_diff"
+                return f"({op} {U.eqb_name(elt_of(xt))} {x} {y})", xt
+            raise Unsupported(e, f".{f.attr} on a non-set")
+        # set().union(*(g(x) for x in xs)): all elements of the lists g(x), as a set
+        if isinstance(f, ast.Attribute) and f.attr == "union" and isinstance(f.value, ast.Call) \
+                and isinstance(f.value.func, ast.Name) and f.value.func.id == "set" and not f.value.args \
+                and len(e.args) == 1 and isinstance(e.args[0], ast.Starred) \
+                and isinstance(e.args[0].value, ast.GeneratorExp) and not e.keywords:
+            g = e.args[0].value
+            lc = ast.copy_location(ast.ListComp(elt=g.elt, generators=g.generators), g)
+            n = len(sc.pending)
+            t, ty = self.comprehension(lc, sc)
+            if len(sc.pending) != n:
+                raise Unsupported(e, "effects in the argument of union()")
+            et = elt_of(elt_of(ty) or "")
+            if et is None:
+                raise Unsupported(e, "union() of non-collections")
+            return f"(set_of_list {U.eqb_name(et)} (List.concat {t}))", f"(pyset {et})"
         # calls of translated functions
         if isinstance(f, ast.Name) and f.id in self.sigs and f.id not in sc.types:
-            sig = self.sigs[f.id]
             if e.keywords:
                 raise Unsupported(e, "keyword arguments")
-            args = self.args_for(sig, e.args, sc, e)
-            text = f"{sig.name} {' '.join(args)}"
-            if f.id in self.ident:
-                v = self.add_pending(sc, "pair", "r", text, e)
-                sc.origins[v.rstrip("_") + "_"] = ast.dump(e.args[0])
-                return v, sig.ret
-            if f.id in self.partial:
-                v = self.add_pending(sc, "opt", "r", text, e)
-                return v, sig.ret
-            return f"({text})", sig.ret
+            return self.call_known(f.id, e.args, sc, e)
         # method call on a value: record methods / methods of a class hierarchy
-        if isinstance(f, ast.Attribute) and not e.keywords:
-            recv = f.value
-            if not (isinstance(recv, ast.Name) and (recv.id in U.enums or recv.id not in sc.types)
-                    and not isinstance(recv, ast.Attribute)):
-                try_recv = True
-            else:
-                try_recv = False
-            if try_recv:
-                n = len(sc.pending)
-                x, xt = self.expr(recv, sc)
-                key = (xt, f.attr)
-                if key in self.rmethods:
-                    name = self.rmethods[key]
-                    sig = self.sigs[name]
-                    args = self.args_for(sig, e.args, sc, e, skip=1)
-                    text = f"{sig.name} {' '.join([x] + args)}"
-                    if name in self.partial:
-                        v = self.add_pending(sc, "opt", "r", text, e)
-                        return v, sig.ret
-                    return f"({text})", sig.ret
-                del sc.pending[n:]
+        if isinstance(f, ast.Attribute) and not e.keywords and self.class_of_name(f) is None \
+                and any(m == f.attr for (_, m) in self.rmethods):
+            x, xt = self.expr(f.value, sc)
+            key = (xt, f.attr)
+            if key not in self.rmethods:
+                raise Unsupported(e, f"no translated method {f.attr} on {xt}")
+            return self.call_known(self.rmethods[key], e.args, sc, e, first=[x])
         return super().call(e, sc, want)
 
     # ------------------------------------------------------------------ statements
     def ret_wrap(self, t: str, node, sc: XScope) -> str:
+        if sc.in_loop:
+            raise Unsupported(node, "return inside a translated loop")
         if sc.ident:
             flag = self.ident_flag(node, sc)
             t = f"({t}, {flag})"
+        if sc.ret_state:
+            t = f"({t}, {safe(sc.state)})"
         if sc.mode == "option":
             t = f"Some ({t})"
         return t
@@ -511,8 +806,52 @@ class XTranslator(Translator):
                 return None
         return out
 
+    def all_assigned(self, stmts) -> list[str]:
+        """Every name a block may (re)bind, in order of first appearance."""
+        out: list[str] = []
+
+        def add(n):
+            if n not in out:
+                out.append(n)
+
+        for s in stmts:
+            for node in ast.walk(s):
+                if isinstance(node, (ast.Assign, ast.AnnAssign, ast.AugAssign)):
+                    tg = node.targets if isinstance(node, ast.Assign) else [node.target]
+                    for t in tg:
+                        for x in ast.walk(t):
+                            if isinstance(x, ast.Name):
+                                add(x.id)
+                elif isinstance(node, ast.For):
+                    for x in ast.walk(node.target):
+                        if isinstance(x, ast.Name):
+                            add(x.id)
+                elif isinstance(node, (ast.NamedExpr, ast.With, ast.Try, ast.While, ast.Delete, ast.Global, ast.Nonlocal)):
+                    raise Unsupported(node, "statement inside a loop")
+        return out
+
+    def has_effects(self, stmts, sc: XScope) -> bool:
+        for s in stmts:
+            for node in ast.walk(s):
+                if isinstance(node, (ast.Subscript, ast.Raise, ast.Return)):
+                    return True
+                if isinstance(node, ast.Call):
+                    f = node.func
+                    if isinstance(f, ast.Name) and f.id in ("next", "reduce"):
+                        return True
+                    name = f.id if isinstance(f, ast.Name) else None
+                    if isinstance(f, ast.Attribute):
+                        cands = [v for (k, m), v in self.rmethods.items() if m == f.attr]
+                        if any(self.fx.get(c, NOFX) != NOFX for c in cands):
+                            return True
+                    if name in self.sigs and (self.fx.get(name, NOFX) != NOFX or name in self.ident):
+                        return True
+        return False
+
     def body(self, stmts, sc: XScope) -> str:
         if not stmts:
+            if sc.fallthrough is not None:
+                return sc.fallthrough(sc)
             raise Unsupported(ast.Pass(), "function body may fall off the end")
         s, rest = stmts[0], stmts[1:]
         if isinstance(s, ast.Expr) and isinstance(s.value, ast.Constant) and isinstance(s.value.value, str):
@@ -525,6 +864,10 @@ class XTranslator(Translator):
             if s.value is None:
                 raise Unsupported(s, "bare return")
             t, ty = self.expr(s.value, sc, want=sc.ret)
+            if sc.ret and not sc.ret.startswith("(option ") and ty.startswith("(option ") and (
+                    unknown(ty) or ty == f"(option {sc.ret})"):
+                # the function is declared to return an object but this value may be None
+                t, ty = self.add_pending(sc, "opt", "some", t, s), sc.ret
             binds = sc.take()
             return wrap(binds, self.ret_wrap(self.coerce(t, ty, sc.ret), s.value, sc))
         if isinstance(s, ast.Raise):
@@ -535,18 +878,37 @@ class XTranslator(Translator):
             name = s.targets[0].id
             if name == sc.self_name:
                 raise Unsupported(s, "assignment to self")
-            t, ty = self.expr(s.value, sc, want=sc.types.get(name))
+            # ids = count()
+            if isinstance(s.value, ast.Call) and isinstance(s.value.func, ast.Name) and s.value.func.id == "count" \
+                    and not s.value.args and not s.value.keywords:
+                if sc.state or name in sc.types:
+                    raise Unsupported(s, "a second counter")
+                sc.state = name
+                sc.types[name] = "(iterator Z)"
+                sc.entry_key = f"{safe(name)}_entry_"
+                k = self.body(rest, sc)
+                return f"let {safe(name)} := 0%Z in\n    let {sc.entry_key} := {safe(name)} in\n    {k}"
+            if sc.types.get(name, "").startswith("(iterator "):
+                raise Unsupported(s, "assignment to the iterator")
+            old = sc.types.get(name)
+            t, ty = self.expr(s.value, sc, want=old)
             binds = sc.take()
             sc.origins.pop(name, None)
+            if old and old.startswith("(option ") and not ty.startswith("(option "):
+                # a variable that was None so far now holds an object
+                inner = old[len("(option "):-1]
+                if inner != "_" and inner != ty:
+                    raise Unsupported(s, f"variable {name} changes type")
+                t, ty = f"(Some {t})", f"(option {ty})"
             if binds and binds[-1][1] == t:
                 # the value IS the result of the last bind: bind the python name directly
-                kind, v, text = binds.pop()
-                binds.append((kind, safe(name), text))
+                kind, v, text, st = binds.pop()
+                binds.append((kind, safe(name), text, st))
                 if v in sc.origins:
                     sc.origins[name] = sc.origins.pop(v)
                 sc.types[name] = ty
                 return wrap(binds, self.body(rest, sc))
-            if ty.endswith("_)"):
+            if unknown(ty) and ty != "(option _)":
                 raise Unsupported(s, "cannot infer the type of the assigned value")
             sc.types[name] = ty
             k = self.body(rest, sc)
@@ -555,21 +917,15 @@ class XTranslator(Translator):
                 and all(isinstance(x, ast.Name) for x in s.targets[0].elts):
             t, ty = self.expr(s.value, sc)
             binds = sc.take()
-            names = [x.id for x in s.targets[0].elts]
-            tys = split_product(ty)
-            if tys is None or len(tys) != len(names):
-                raise Unsupported(s, "tuple assignment")
-            for n, nt in zip(names, tys):
-                sc.types[n] = nt
-                sc.origins.pop(n, None)
+            pat = self.pattern(s.targets[0], ty, sc, s)
             k = self.body(rest, sc)
-            return wrap(binds, f"let '({', '.join(safe(n) for n in names)}) := {t} in\n    {k}")
+            return wrap(binds, f"let {pat} := {t} in\n    {k}")
         if isinstance(s, ast.If):
             c, cty = self.expr(s.test, sc)
             self.need(cty, "bool", s)
             binds = sc.take()
             names = self.assigned_names(list(s.body) + list(s.orelse))
-            if names is not None and names:
+            if names is not None and names and not self.has_effects(list(s.body) + list(s.orelse), sc):
                 # the if only re-assigns local variables
                 for n in names:
                     if n not in sc.types:
@@ -593,17 +949,21 @@ class XTranslator(Translator):
                 pat = safe(names[0]) if len(names) == 1 else "'(" + ", ".join(safe(n) for n in names) + ")"
                 k = self.body(rest, sc)
                 return wrap(binds, f"let {pat} := (if {c} then {a} else {b}) in\n    {k}")
-            saved, saved_o = dict(sc.types), dict(sc.origins)
+            saved, saved_o, saved_s = dict(sc.types), dict(sc.origins), sc.state
             a = self.body(list(s.body) + ([] if self.returns(s.body) else rest), sc)
-            sc.types, sc.origins = dict(saved), dict(saved_o)
+            sc.types, sc.origins, sc.state = dict(saved), dict(saved_o), saved_s
             if s.orelse:
                 b = self.body(list(s.orelse) + ([] if self.returns(s.orelse) else rest), sc)
             else:
                 b = self.body(rest, sc)
-            sc.types, sc.origins = saved, saved_o
+            sc.types, sc.origins, sc.state = saved, saved_o, saved_s
             return wrap(binds, f"if {c} then {a}\n    else {b}")
         if isinstance(s, ast.Try):
             return self.try_index(s, rest, sc)
+        if isinstance(s, ast.For):
+            return self.for_loop(s, rest, sc)
+        if isinstance(s, ast.Match):
+            return self.match_stmt(s, rest, sc)
         raise Unsupported(s, "statement")
 
     def returns(self, stmts) -> bool:
@@ -614,7 +974,110 @@ class XTranslator(Translator):
             return True
         if isinstance(last, ast.If):
             return self.returns(last.body) and bool(last.orelse) and self.returns(last.orelse)
+        if isinstance(last, ast.Match):
+            return all(self.returns(c.body) for c in last.cases) and any(
+                isinstance(c.pattern, ast.MatchAs) and c.pattern.pattern is None and c.guard is None for c in last.cases)
         return False
+
+    # ---------------------------------------------------------------- match
+    def case_accepts(self, pat, cls: str, node) -> bool:
+        """Does the class pattern accept instances of the (concrete) class `cls`?"""
+        if isinstance(pat, ast.MatchAs) and pat.pattern is None and pat.name is None:
+            return True
+        if isinstance(pat, ast.MatchOr):
+            return any(self.case_accepts(p, cls, node) for p in pat.patterns)
+        if isinstance(pat, ast.MatchClass) and not pat.patterns and not pat.kwd_patterns:
+            cn = self.class_of_name(pat.cls)
+            if cn is None:
+                raise Unsupported(node, "class pattern of an unknown class")
+            return self.U.is_sub(cls, cn)
+        raise Unsupported(node, "pattern other than `Class()`, `A() | B()`, `_`")
+
+    def match_stmt(self, s: ast.Match, rest, sc: XScope) -> str:
+        if not isinstance(s.subject, ast.Name) or s.subject.id not in sc.types:
+            raise Unsupported(s, "match on something other than a variable")
+        subj = s.subject.id
+        ind = sc.types[subj]
+        if ind not in self.U.inds or ind in self.U.enums or any(sup == ind for (_, sup) in self.U.embed):
+            raise Unsupported(s, "match on a value that is not of a translated class hierarchy")
+        if sc.pending:
+            raise AssertionError("pending effects before a match")
+        out = [f"match {safe(subj)} with"]
+        for ct in self.U.inds[ind]:
+            chosen = None
+            for c in s.cases:
+                if c.guard is not None:
+                    raise Unsupported(s, "case guard")
+                if self.case_accepts(c.pattern, ct.pyclass, s):
+                    chosen = c
+                    break
+            pat = " ".join(f"{subj}_{fn}" for fn, _ in ct.fields)
+            arm = sc.clone(self_ctor=ct, self_name=subj, self_type=ind)
+            arm.types[subj] = ind
+            if chosen is None:
+                body = self.body(list(rest), arm)  # no case matches: the statement does nothing
+            else:
+                body = self.body(list(chosen.body) + ([] if self.returns(chosen.body) else list(rest)), arm)
+            out.append(f"    | {ct.coq} {pat} =>".replace("  =>", " =>") + f"\n      {body}")
+        out.append("    end")
+        return "\n".join(out)
+
+    # ---------------------------------------------------------------- for
+    def for_loop(self, s: ast.For, rest, sc: XScope) -> str:
+        if s.orelse:
+            raise Unsupported(s, "for ... else")
+        src, et, is_set = self.iterable(s.iter, sc)
+        binds = sc.take()
+        if is_set:
+            src = self.ordered(src, sc, s)
+        assigned = self.all_assigned(s.body)
+        targets = [x.id for x in ast.walk(s.target) if isinstance(x, ast.Name)]
+        carried = [n for n in assigned if n in sc.types and n not in targets]
+        for n in carried:
+            if sc.types[n].startswith("(iterator "):
+                raise Unsupported(s, "assignment to the iterator")
+        if not carried:
+            raise Unsupported(s, "loop that assigns no variable of the enclosing block")
+        acc_pat = safe(carried[0]) if len(carried) == 1 else "'(" + ", ".join(safe(n) for n in carried) + ")"
+        acc_val = safe(carried[0]) if len(carried) == 1 else "(" + ", ".join(safe(n) for n in carried) + ")"
+        if not self.has_effects(s.body, sc):
+            inner = sc.sub(None)
+            pat = self.pattern(s.target, et, inner, s)
+            tup = ast.Tuple(elts=[ast.Name(id=n, ctx=ast.Load()) for n in carried], ctx=ast.Load()) \
+                if len(carried) > 1 else ast.Name(id=carried[0], ctx=ast.Load())
+            b = self.body(list(s.body) + [ast.Return(value=tup)], inner)
+            for n in carried:
+                if inner.types[n] != sc.types[n]:
+                    raise Unsupported(s, f"variable {n} changes type in the loop")
+                sc.origins.pop(n, None)
+            k = self.body(rest, sc)
+            return wrap(binds, f"let {acc_pat} := fold_left (fun {acc_pat} {pat} => {b}) {src} {acc_val} in\n    {k}")
+        # loop with effects: a local fix that threads the assigned variables (and the counter)
+        if sc.mode != "option":
+            raise Unsupported(s, "loop with effects in a function translated as total")
+        st = safe(sc.state) if sc.state else None
+        names = [safe(n) for n in carried] + ([st] if st else [])
+        tup = names[0] if len(names) == 1 else "(" + ", ".join(names) + ")"
+        inner = sc.clone(in_loop=True)
+        inner.pending = []
+        pat = self.pattern(s.target, et, inner, s)
+        if st:
+            inner.entry_key = f"{st}_entry_"
+            inner.entry_used = [False]
+        inner.fallthrough = lambda scope: f"Some {tup}"
+        b = self.body(list(s.body), inner)
+        if st and inner.entry_used[0]:
+            b = f"let {inner.entry_key} := {st} in\n    {b}"
+        for n in carried:
+            t0, t1 = sc.types[n], inner.types[n]
+            if t0 != t1 and not (t0 == "(option _)" and t1.startswith("(option ")):
+                raise Unsupported(s, f"variable {n} changes type in the loop")
+            sc.types[n] = t1
+            sc.origins.pop(n, None)
+        k = self.body(rest, sc)
+        accpat = tup if len(names) == 1 else "'" + tup
+        fx = f"ofold (fun {accpat} (x_ : {et}) => let {pat} := x_ in\n    {b}) {src} {tup}"
+        return wrap(binds, f"match {fx} with None => None | Some {tup} =>\n    {k} end")
 
     def try_index(self, s: ast.Try, rest, sc: XScope) -> str:
         """try: v = xs.index(x)
@@ -678,75 +1141,110 @@ def split_product(ty: str) -> list[str] | None:
 # --------------------------------------------------------------------------------------------
 
 
+def ptype(ty: str) -> str:
+    """Gallina type of an argument: the iterator is its counter."""
+    return "Z" if ty.startswith("(iterator ") else ty
+
+
 class XEmitter(FamilyEmitter):
-    """singledispatch families in the option monad / with identity tracking; record methods;
-    methods of a class hierarchy; plain functions over primitive arguments."""
+    """singledispatch families in the option / state monad, with identity tracking or fuel; record
+    methods; methods of a class hierarchy; plain functions; functions whose body is one `match`."""
 
     def __init__(self, tr: XTranslator, fams: dict[str, Family]):
         super().__init__(tr, fams)
 
-    def declare(self, fam: Family, domain: str, partial=False, ident=False):
+    def state_param(self, params) -> str | None:
+        st = [pn for pn, pt in params if pt.startswith("(iterator ")]
+        if len(st) > 1:
+            raise Unsupported(ast.Constant(st), "several iterators")
+        return st[0] if st else None
+
+    def declare(self, fam: Family, domain: str, partial=False, ident=False, fuel=False):
         super().declare(fam, domain)
-        if partial:
-            self.tr.partial.add(fam.name)
+        sig = self.tr.sigs[fam.name]
+        self.tr.fx[fam.name] = Fx(opt=partial or fuel, state=self.state_param(sig.params), fuel=fuel)
         if ident:
             self.tr.ident.add(fam.name)
 
     def full_ret(self, name: str) -> str:
         ret = self.tr.sigs[name].ret
+        fx = self.tr.fx.get(name, NOFX)
         if name in self.tr.ident:
             ret = f"({ret} * bool)"
-        if name in self.tr.partial:
+        if fx.state:
+            ret = f"({ret} * Z)"
+        if fx.opt:
             ret = f"(option {ret})"
         return ret
 
+    def scope_for(self, name: str, ct: Ctor | None, self_type, self_name, params) -> XScope:
+        sig = self.tr.sigs[name]
+        fx = self.tr.fx.get(name, NOFX)
+        sc = XScope(self.tr, ct, self_type, sig.ret, self_name=self_name, mode="option" if fx.opt else "pure",
+                    ident=name if name in self.tr.ident else None)
+        for pn, pt in params:
+            sc.types[pn] = pt
+        if fx.state:
+            st = [pn for pn, pt in params if pt.startswith("(iterator ")][0]
+            sc.state, sc.ret_state = st, True
+            sc.entry_key = f"{safe(st)}_entry_"
+        sc.fuel = fx.fuel
+        return sc
+
+    def finish_body(self, body: str, sc: XScope) -> str:
+        if sc.state and sc.ret_state and sc.entry_used[0]:
+            body = f"let {sc.entry_key} := {safe(sc.state)} in\n    {body}"
+        return body
+
     def xarm(self, fam: Family, ct: Ctor) -> str:
         sig = self.tr.sigs[fam.name]
-        mode = "option" if fam.name in self.tr.partial else "pure"
+        fx = self.tr.fx.get(fam.name, NOFX)
         fn = self.registration_for(fam, ct.pyclass)
         if fn is None:
             if not is_raise_only(fam.base):
                 raise Unsupported(fam.base, "default body is not a bare raise")
-            if mode == "option":
+            if fx.opt:
                 return "None"
             raise Unsupported(fam.base, f"no registration for {ct.pyclass} and the default raises")
         sname = fn.args.args[0].arg
-        if len(fn.args.args) != len(sig.params):
-            raise Unsupported(fn, "registration has a different number of arguments")
-        sc = XScope(self.tr, ct, ct.ind, sig.ret, self_name=sname, mode=mode,
-                    ident=fam.name if fam.name in self.tr.ident else None)
-        for a, (pn, pt) in zip(fn.args.args[1:], sig.params[1:]):
-            sc.types[a.arg] = pt
-        body = self.tr.body(fn.body, sc)
+        if len(fn.args.args) != len(sig.params) or fn.args.kwonlyargs or fn.args.vararg or fn.args.kwarg or fn.args.defaults:
+            raise Unsupported(fn, "registration has a different signature")
+        params = [(a.arg, pt) for a, (pn, pt) in zip(fn.args.args[1:], sig.params[1:])]
+        sc = self.scope_for(fam.name, ct, ct.ind, sname, params)
+        body = self.finish_body(self.tr.body(fn.body, sc), sc)
         # the registration may name its arguments differently from the dispatcher
         lets = []
         if sname != "self":
             lets.append(f"let {safe(sname)} := self in")
-            body = body.replace(f"{sname}_", f"{sname}_")  # field variables keep the python spelling
         for a, (pn, pt) in zip(fn.args.args[1:], sig.params[1:]):
             if a.arg != pn:
                 lets.append(f"let {safe(a.arg)} := {safe(pn)} in")
         return " ".join(lets + [body])
 
+    def family_text(self, n: str, kw: str, struct: str) -> list[str]:
+        fam = self.fams[n]
+        sig = self.tr.sigs[n]
+        fx = self.tr.fx.get(n, NOFX)
+        dom = sig.params[0][1]
+        ps = " ".join(f"({safe(pn)} : {ptype(pt)})" for pn, pt in sig.params)
+        st = f" {{struct {struct}}}" if struct else ""
+        out = [f"{kw} {n} {ps}{st} : {self.full_ret(n)} :="]
+        out.append("  match self with")
+        for ct in self.U.inds[dom]:
+            sname = "self"
+            fn = self.registration_for(fam, ct.pyclass)
+            if fn is not None:
+                sname = fn.args.args[0].arg
+            pat = " ".join(f"{sname}_{fn_}" for fn_, _ in ct.fields)
+            out.append(f"  | {ct.coq} {pat} =>".replace("  =>", " =>"))
+            out.append("    " + self.xarm(fam, ct))
+        out.append("  end")
+        return out
+
     def emit_xgroup(self, names: list[str]) -> str:
         out = []
         for i, n in enumerate(names):
-            fam = self.fams[n]
-            sig = self.tr.sigs[n]
-            dom = sig.params[0][1]
-            kw = "Fixpoint" if i == 0 else "with"
-            ps = " ".join(f"({safe(pn)} : {pt})" for pn, pt in sig.params)
-            out.append(f"{kw} {n} {ps} {{struct self}} : {self.full_ret(n)} :=")
-            out.append("  match self with")
-            for ct in self.U.inds[dom]:
-                sname = "self"
-                fn = self.registration_for(fam, ct.pyclass)
-                if fn is not None:
-                    sname = fn.args.args[0].arg
-                pat = " ".join(f"{sname}_{fn_}" for fn_, _ in ct.fields)
-                out.append(f"  | {ct.coq} {pat} =>".replace("  =>", " =>"))
-                out.append("    " + self.xarm(fam, ct))
-            out.append("  end")
+            out += self.family_text(n, "Fixpoint" if i == 0 else "with", "self")
         out[-1] += "."
         return "\n".join(out) + "\n"
 
@@ -768,11 +1266,8 @@ class XEmitter(FamilyEmitter):
         name = f"{ct.ind}_{meth}"
         self.tr.sigs[name] = FuncSig(name, params, ret)
         self.tr.rmethods[(ct.ind, meth)] = name
-        if partial:
-            self.tr.partial.add(name)
-        sc = XScope(self.tr, ct, ct.ind, ret, self_name=sname, mode="option" if partial else "pure")
-        for pn, pt in params[1:]:
-            sc.types[pn] = pt
+        self.tr.fx[name] = Fx(opt=partial)
+        sc = self.scope_for(name, ct, ct.ind, sname, params[1:])
         body = self.tr.body(fn.body, sc)
         ps = " ".join(f"({safe(pn)} : {pt})" for pn, pt in params)
         pat = " ".join(f"{sname}_{f}" for f, _ in ct.fields)
@@ -792,8 +1287,7 @@ class XEmitter(FamilyEmitter):
         U = self.U
         self.tr.sigs[name] = FuncSig(name, [("self", ind)], ret)
         self.tr.rmethods[(ind, meth)] = name
-        if partial:
-            self.tr.partial.add(name)
+        self.tr.fx[name] = Fx(opt=partial)
         out = [f"Fixpoint {name} (self : {ind}) {{struct self}} : {self.full_ret(name)} :=", "  match self with"]
         for ct in U.inds[ind]:
             fn = self.resolve_method(ct.pyclass, meth)
@@ -809,7 +1303,7 @@ class XEmitter(FamilyEmitter):
                     raise Unsupported(fn, f"{ct.pyclass}.{meth} only raises")
                 out.append("    None")
                 continue
-            sc = XScope(self.tr, ct, ind, ret, self_name=sname, mode="option" if partial else "pure")
+            sc = self.scope_for(name, ct, ind, sname, [])
             body = self.tr.body(fn.body, sc)
             if sname != "self":
                 body = f"let {safe(sname)} := self in {body}"
@@ -818,7 +1312,7 @@ class XEmitter(FamilyEmitter):
         return "\n".join(out) + "\n"
 
     # -------------------------------------------------------------- plain functions
-    def declare_function(self, fn: ast.FunctionDef, partial=False):
+    def declare_function(self, fn: ast.FunctionDef, partial=False, fuel=False):
         if fn.decorator_list or fn.args.kwonlyargs or fn.args.vararg or fn.args.kwarg or fn.args.defaults:
             raise Unsupported(fn, "function signature")
         params = []
@@ -829,17 +1323,64 @@ class XEmitter(FamilyEmitter):
         if fn.returns is None:
             raise Unsupported(fn, "function without return annotation")
         self.tr.sigs[fn.name] = FuncSig(fn.name, params, self.U.coq_type(fn.returns))
-        if partial:
-            self.tr.partial.add(fn.name)
+        self.tr.fx[fn.name] = Fx(opt=partial or fuel, state=self.state_param(params), fuel=fuel)
+
+    def function_text(self, fn: ast.FunctionDef, kw: str, struct: str | None) -> str:
+        sig = self.tr.sigs[fn.name]
+        fx = self.tr.fx.get(fn.name, NOFX)
+        first = fn.args.args[0].arg if fn.args.args else None
+        sc = self.scope_for(fn.name, None, None, first or "self", sig.params)
+        body = self.finish_body(self.tr.body(fn.body, sc), sc)
+        ps = " ".join(f"({safe(pn)} : {ptype(pt)})" for pn, pt in sig.params)
+        if fx.fuel and fn.name not in self.tr.open_group:
+            ps = "(fuel : nat) " + ps
+        st = f" {{struct {struct}}}" if struct else ""
+        return f"{kw} {fn.name} {ps}{st} : {self.full_ret(fn.name)} :=\n    {body}"
 
     def emit_function(self, fn: ast.FunctionDef) -> str:
-        sig = self.tr.sigs[fn.name]
-        sc = XScope(self.tr, None, None, sig.ret, mode="option" if fn.name in self.tr.partial else "pure")
-        for pn, pt in sig.params:
-            sc.types[pn] = pt
-        body = self.tr.body(fn.body, sc)
-        ps = " ".join(f"({safe(pn)} : {pt})" for pn, pt in sig.params)
-        return f"Definition {fn.name} {ps} : {self.full_ret(fn.name)} :=\n    {body}.\n"
+        return self.function_text(fn, "Definition", None) + ".\n"
+
+    def emit_match_function(self, fn: ast.FunctionDef) -> str:
+        """A function recursive on its first argument whose body is one `match` on it."""
+        body = [s for s in fn.body if not (isinstance(s, ast.Expr) and isinstance(s.value, ast.Constant))]
+        if len(body) != 1 or not isinstance(body[0], ast.Match) or not isinstance(body[0].subject, ast.Name) \
+                or body[0].subject.id != fn.args.args[0].arg:
+            raise Unsupported(fn, "body is not a single match on the first argument")
+        return self.function_text(fn, "Fixpoint", safe(fn.args.args[0].arg)) + ".\n"
+
+    def emit_fuel_group(self, fams: list[str], fns: list[ast.FunctionDef]) -> str:
+        """Mutually recursive functions that are not structurally recursive.  Each function f becomes
+        a non-recursive [f_body] that takes the functions of the group as arguments (open recursion);
+        one Fixpoint on fuel ties the knot: with fuel S n every call inside the group runs with fuel n,
+        with fuel 0 the result is None."""
+        names = list(fams) + [fn.name for fn in fns]
+
+        def ftype(n):
+            sig = self.tr.sigs[n]
+            return " -> ".join([ptype(pt) for _, pt in sig.params] + [self.full_ret(n)])
+
+        rec = " ".join(f"({n} : {ftype(n)})" for n in names)
+        out = []
+        self.tr.open_group = set(names)
+        try:
+            for n in fams:
+                lines = self.family_text(n, "Definition", None)
+                lines[0] = lines[0].replace(f"Definition {n} ", f"Definition {n}_body {rec} ", 1)
+                out.append("\n".join(lines) + ".\n")
+            for fn in fns:
+                t = self.function_text(fn, "Definition", None)
+                out.append(t.replace(f"Definition {fn.name} ", f"Definition {fn.name}_body {rec} ", 1) + ".\n")
+        finally:
+            self.tr.open_group = set()
+        fix = []
+        for i, n in enumerate(names):
+            sig = self.tr.sigs[n]
+            wild = " ".join("_" for _ in sig.params)
+            recs = " ".join(f"({m} fuel)" for m in names)
+            fix.append(f"{'Fixpoint' if i == 0 else 'with'} {n} (fuel : nat) {{struct fuel}} : {ftype(n)} :=\n"
+                       f"  match fuel with\n  | O => fun {wild} => None\n  | S fuel => {n}_body {recs}\n  end")
+        out.append("\n".join(fix) + ".\n")
+        return "\n".join(out)
 
 
 # --------------------------------------------------------------------------------------------
@@ -915,10 +1456,161 @@ def gen_exhaust(src: Path) -> str:
 
 
 # --------------------------------------------------------------------------------------------
+# target 2: iteration_graph/_names.py
+# --------------------------------------------------------------------------------------------
+
+
+def gen_names(src: Path) -> str:
+    from . import ir
+
+    U = ir.build_universe(src, XUniverse)
+    tree = ast.parse((src / "tensora/iteration_graph/_names.py").read_text())
+    fams, plain = parse_functions(tree)
+    if fams:
+        raise Unsupported(ast.Constant(sorted(fams)), "unexpected singledispatch family in _names.py")
+    for node in tree.body:
+        ok = isinstance(node, (ast.FunctionDef, ast.ImportFrom, ast.Import)) or (
+            isinstance(node, ast.Assign) and all(isinstance(t, ast.Name) and t.id == "__all__" for t in node.targets)) or (
+            isinstance(node, ast.Expr) and isinstance(node.value, ast.Constant))
+        if not ok:
+            raise Unsupported(node, "top-level statement of _names.py")
+    tr = XTranslator(U)
+    fe = XEmitter(tr, {})
+    out = [XPRELUDE.format(src="src/tensora/iteration_graph/_names.py"), "From TV Require Import gen.IRAst.\n"]
+    for name, fn in plain.items():  # source order: a function may only call earlier ones
+        fe.declare_function(fn)
+        out.append(fe.emit_function(fn))
+    return "\n".join(out)
+
+
+# --------------------------------------------------------------------------------------------
+# target 3: expression/ast.py, the deparse methods
+# --------------------------------------------------------------------------------------------
+
+
+def build_expression_universe(src: Path) -> XUniverse:
+    U = XUniverse()
+    classes = parse_classes(ast.parse((src / "tensora/expression/ast.py").read_text()))
+    for need in ("Expression", "Assignment"):
+        if need not in classes:
+            raise Unsupported(ast.Constant(need), "missing class")
+    U.classes.update(classes)
+    members = [c for c in classes if classes[c].is_dataclass and U.is_sub(c, "Expression")]
+    other = [c for c in classes if classes[c].is_dataclass and c not in members and c != "Assignment"]
+    if other:
+        raise Unsupported(ast.Constant(other), "dataclass outside the Expression hierarchy")
+    U.add_inductive("ex_expr", "Expression", members, prefix="Ex")
+    U.add_inductive("ex_assignment", "Assignment", ["Assignment"], prefix="Ex")
+    U.resolve_fields()
+    return U
+
+
+def gen_deparse(src: Path) -> str:
+    U = build_expression_universe(src)
+    tr = XTranslator(U)
+    tr.float_str = "str_float"
+    fe = XEmitter(tr, {})
+    out = [XPRELUDE.format(src="src/tensora/expression/ast.py (classes, deparse methods)")]
+    out.append(U.emit_inductives([["ex_expr"], ["ex_assignment"]]))
+    out.append(U.emit_eqb("ex_expr"))
+    out.append(U.emit_recognizers("ex_expr"))
+    out.append(U.emit_projections("ex_assignment"))
+    out.append("Section Deparse.\n(* Python's str(float) (repr of a binary64) is not modelled: an abstract rendering *)\n"
+               "Variable str_float : F -> string.\n")
+    out.append(fe.emit_hierarchy_method("ex_expr", "deparse", "string", "Expression_deparse"))
+    out.append(fe.emit_record_method("Assignment", "deparse"))
+    out.append("End Deparse.\n")
+    return "\n".join(out)
+
+
+# --------------------------------------------------------------------------------------------
+# target 4: desugar/ast.py, desugar/_desugar_expression.py
+# --------------------------------------------------------------------------------------------
+
+# ASSUMED summary of `e.index_participants().keys()` (expression/ast.py; dictionaries of sets, not
+# translated): the index names occurring in e.  Only ever used under set(...), i.e. as a set.
+SUMMARY_INDEX_NAMES = """(* ASSUMED summary of [e.index_participants().keys()] -- the index names occurring in e; the
+   source only uses it as [set(...)].  Guarded by the self-check (tools/props/_tie.py). *)
+Fixpoint index_names (e : ex_expr) : list string :=
+  match e with
+  | ExInteger _ | ExFloat _ => nil
+  | ExTensor _ indexes => indexes
+  | ExAdd a b | ExSubtract a b | ExMultiply a b => (index_names a ++ index_names b)%list
+  end.
+Definition assignment_index_names (a : ex_assignment) : list string :=
+  (index_names (ex_assignment_target a) ++ index_names (ex_assignment_expression a))%list.
+"""
+
+
+def build_desugar_universe(src: Path) -> XUniverse:
+    U = build_expression_universe(src)
+    U.modules = {"sugar": "", "desugar": "desugar"}
+    dclasses = parse_classes(ast.parse((src / "tensora/desugar/ast.py").read_text()))
+    for need in ("Expression", "Assignment"):
+        if need not in dclasses:
+            raise Unsupported(ast.Constant(need), "missing class in desugar/ast.py")
+    U.add_namespaced("desugar", dclasses)
+    members = [f"desugar.{c}" for c in dclasses if dclasses[c].is_dataclass and U.is_sub(f"desugar.{c}", "desugar.Expression")]
+    other = [c for c in dclasses if dclasses[c].is_dataclass and f"desugar.{c}" not in members and c != "Assignment"]
+    if other:
+        raise Unsupported(ast.Constant(other), "dataclass outside the Expression hierarchy")
+    U.add_inductive("de_expr", "desugar.Expression", members, prefix="De")
+    U.add_inductive("de_assignment", "desugar.Assignment", ["desugar.Assignment"], prefix="De")
+    U.resolve_fields()
+    return U
+
+
+def gen_desugar(src: Path) -> str:
+    U = build_desugar_universe(src)
+    tree = ast.parse((src / "tensora/desugar/_desugar_expression.py").read_text())
+    for node in tree.body:
+        ok = isinstance(node, (ast.FunctionDef, ast.ImportFrom, ast.Import)) or (
+            isinstance(node, ast.Assign) and all(isinstance(t, ast.Name) and t.id == "__all__" for t in node.targets)) or (
+            isinstance(node, ast.Expr) and isinstance(node.value, ast.Constant))
+        if not ok:
+            raise Unsupported(node, "top-level statement of _desugar_expression.py")
+    fams, plain = parse_functions(tree)
+    if set(fams) != {"desugar_expression"}:
+        raise Unsupported(ast.Constant(sorted(fams)), "unexpected singledispatch families")
+    want = ["carried_by_every_term", "additive_terms", "desugar_distributed", "desugar_assignment"]
+    if sorted(plain) != sorted(want):
+        raise Unsupported(ast.Constant(sorted(plain)), "unexpected plain functions in _desugar_expression.py")
+    tr = XTranslator(U)
+    tr.oracle = "ord"
+    tr.summaries[("ex_expr", "index_participants().keys()")] = ("index_names", "(list string)")
+    tr.summaries[("ex_assignment", "index_participants().keys()")] = ("assignment_index_names", "(list string)")
+    fe = XEmitter(tr, fams)
+    out = [XPRELUDE.format(src="src/tensora/desugar/ast.py, src/tensora/desugar/_desugar_expression.py"),
+           "From TV Require Import gen.Deparse.\n"]
+    out.append(U.emit_inductives([["de_expr"], ["de_assignment"]]))
+    out.append(U.emit_eqb("de_expr"))
+    out.append(U.emit_projections("de_assignment"))
+    out.append(SUMMARY_INDEX_NAMES)
+    for n in ("carried_by_every_term", "additive_terms"):
+        fe.declare_function(plain[n])
+        out.append(fe.emit_match_function(plain[n]))
+    out.append("Section Desugar.\n(* iteration order of a set: unknown; keyed by the value of the id counter on entry to the\n"
+               "   enclosing function / loop body.  Nothing may be assumed but that it permutes its argument. *)\n"
+               "Variable ord : Z -> list string -> list string.\n")
+    fe.declare(fams["desugar_expression"], "ex_expr", fuel=True)
+    fe.declare_function(plain["desugar_distributed"], fuel=True)
+    out.append("(* desugar_multiply -> desugar_distributed -> desugar_expression on the factors is not structural\n"
+               "   recursion: explicit fuel; None = out of fuel or a Python exception *)")
+    out.append(fe.emit_fuel_group(["desugar_expression"], [plain["desugar_distributed"]]))
+    fe.declare_function(plain["desugar_assignment"], fuel=True)
+    out.append(fe.emit_function(plain["desugar_assignment"]))
+    out.append("End Desugar.\n")
+    return "\n".join(out)
+
+
+# --------------------------------------------------------------------------------------------
 
 
 def targets(src: Path) -> dict:
     return {
         "ExhaustAst.v": lambda: gen_exhaust_ast(src),
         "Exhaust.v": lambda: gen_exhaust(src),
+        "Names.v": lambda: gen_names(src),
+        "Deparse.v": lambda: gen_deparse(src),
+        "Desugar.v": lambda: gen_desugar(src),
     }
